@@ -27,8 +27,8 @@ def applyOp (m : RouterMap) : MapOp → RouterMap
 abbrev Spec := List (Nat × (Ident × PeerInfo))
 
 def specApply (sp : Spec) : MapOp → Spec
-  | .add id pipe uri => amInsert sp pipe (id, { uri := uri, strat := .default })
-  | .update pipe id uri s => amInsert sp pipe (id, { uri := uri, strat := s })
+  | .add id pipe uri => amInsert sp pipe (id, { uri := uri, strat := .default, pipe := pipe })
+  | .update pipe id uri s => amInsert sp pipe (id, { uri := uri, strat := s, pipe := pipe })
   | .removePipe pipe => amRemove sp pipe
 
 /-- an operation that would give a pipe an identity currently held by ANOTHER live pipe -/
@@ -41,28 +41,45 @@ def collisionFree : Spec → List MapOp → Bool
   | _, [] => true
   | sp, op :: rest => !collides sp op && collisionFree (specApply sp op) rest
 
+/-- For EVERY history (identity collisions included): the identity reported for a pipe is its current one … -/
+theorem pipe_identity_refines (h : List MapOp) (pipe : Nat) (id : Ident) :
+    (h.foldl applyOp {}).identityOfPipe pipe = some id ↔ ∃ info, amGet (h.foldl specApply []) pipe = some (id, info) := by
+  sorry
+
+/-- … and a lookup never yields a dead or a wrong connection: whatever it returns is the endpoint of a LIVE pipe
+that currently holds exactly that identity (with the strategy that pipe registered). -/
+theorem lookup_sound (h : List MapOp) (id : Ident) (info : PeerInfo)
+    (hl : (h.foldl applyOp {}).lookup id = some info) :
+    amGet (h.foldl specApply []) info.pipe = some (id, info) := by
+  sorry
+
 /-- Refinement: for every collision-free history of add / re-identify / remove, looking an identity up yields
-exactly the endpoint (and send strategy) of the live pipe that currently holds that identity, and the identity
-reported for a pipe is its current one. -/
+exactly the endpoint (and send strategy) of the live pipe that currently holds that identity. -/
 theorem router_map_refines (h : List MapOp) (hc : collisionFree [] h = true) :
     let m := h.foldl applyOp {}
     let sp := h.foldl specApply []
-    (∀ id info, m.lookup id = some info ↔ ∃ pipe, amGet sp pipe = some (id, info))
-    ∧ (∀ pipe id, m.identityOfPipe pipe = some id ↔ ∃ info, amGet sp pipe = some (id, info)) := by
+    (∀ id info, m.lookup id = some info ↔ ∃ pipe, amGet sp pipe = some (id, info)) := by
   sorry
 
 /-- a disconnected peer's identity stops being routable; everybody else is unaffected -/
-theorem remove_is_local (h : List MapOp) (hc : collisionFree [] h = true) (pipe : Nat) (id : Ident)
+theorem remove_is_local (h : List MapOp) (pipe : Nat) (id : Ident)
     (hid : (h.foldl applyOp {}).identityOfPipe pipe ≠ some id) :
     ((h.foldl applyOp {}).removeByPipe pipe).lookup id = (h.foldl applyOp {}).lookup id := by
   sorry
 
-/-- KNOWN FINDING C11:identity-collision-unroutes-newer — two live pipes announce the same identity, the older
-one disconnects: the identity becomes unroutable although the newer pipe is alive. -/
-theorem collision_counterexample :
+/-- identity collision (two live pipes announce the same identity): the newest claimant is addressed, and it
+stays routable when the older one disconnects (fixed: the older pipe's removal used to unroute it) -/
+theorem collision_newest_wins :
     let h : List MapOp := [MapOp.add [7] 1 100, MapOp.add [7] 2 200, MapOp.removePipe 1]
     let m := h.foldl applyOp {}
-    m.identityOfPipe 2 = some ([7] : Ident) ∧ m.lookup ([7] : Ident) = none := by
+    m.identityOfPipe 2 = some ([7] : Ident) ∧ (m.lookup ([7] : Ident)).map (·.uri) = some 200 := by
+  sorry
+
+/-- … and when the newest claimant disconnects the identity becomes unroutable rather than pointing at a
+dead connection -/
+theorem collision_newest_removed :
+    let h : List MapOp := [MapOp.add [7] 1 100, MapOp.add [7] 2 200, MapOp.removePipe 2]
+    (h.foldl applyOp {}).lookup ([7] : Ident) = none := by
   sorry
 
 -- Part 2: envelopes ----------------------------------------------------------------------------------------
@@ -75,44 +92,94 @@ but the last -/
 theorem dealer_to_router (manual : Bool) (id : List UInt8) (payload : List Frame) (hne : payload ≠ []) :
     routerToApp id (routerProcessIncoming manual .dealer (dealerPrepareSend manual payload))
       = normFlags ({ payload := id, more := true, command := false } :: payload) := by
-  sorry
+  have he := isEmpty_eq_false_of_ne_nil payload hne
+  have hn := normFlags_ne_nil payload hne
+  have hne' := isEmpty_eq_false_of_ne_nil _ hn
+  rw [normFlags_cons_of_ne_nil _ _ hne]
+  cases manual with
+  | true =>
+    simp only [dealerPrepareSend, routerProcessIncoming, routerToApp, if_true, hne', Bool.not_false]
+    rw [clearLastMore_cons_of_ne_nil _ _ hn, clearLastMore_normFlags]
+  | false =>
+    simp only [dealerPrepareSend, dealerAutoEncode, he, Bool.false_eq_true, if_false]
+    rw [normFlags_cons_of_ne_nil _ _ hne]
+    simp only [routerProcessIncoming, Bool.false_eq_true, if_false, emptyFrame, List.isEmpty_nil, if_true,
+      routerToApp, hne', Bool.not_false]
+    rw [clearLastMore_cons_of_ne_nil _ _ hn, clearLastMore_normFlags]
 
 /-- ROUTER → DEALER, default and DEALER strategies, auto-delimiter on both sides: the DEALER application
 receives exactly the payload frames (given the user set MORE on all but the last, as the API requires) -/
 theorem router_to_dealer_auto (s : Strat) (hs : s = .default ∨ s = .dealer) (id : Frame) (hid : id.payload ≠ [])
     (payload : List Frame) (hn : normFlags payload = payload) :
     dealerProcessIncoming false (routerSendWire s false (id :: payload)) = payload := by
-  sorry
+  have hidne : id.payload.isEmpty = false := isEmpty_eq_false_of_ne_nil _ hid
+  have hw : routerSendWire s false (id :: payload)
+      = clearLastMore (setMore (if payload.isEmpty then id else setMore id) :: emptyFrame (!payload.isEmpty) :: payload) := by
+    rcases hs with rfl | rfl <;> simp [routerSendWire, prepareWire, routerAutoEncode]
+  rw [hw]
+  cases payload with
+  | nil =>
+    simp [clearLastMore, dealerProcessIncoming, setMore, emptyFrame, hidne]
+  | cons f rest =>
+    rw [clearLastMore_cons_of_ne_nil _ _ (by simp), clearLastMore_cons_of_ne_nil _ _ (by simp),
+      clearLastMore_of_normFlags_eq _ hn]
+    simp [dealerProcessIncoming, setMore, emptyFrame, hidne]
 
 /-- REQ → ROUTER: `[delimiter, request]` arrives as `[identity, request]` -/
 theorem req_to_router (id : List UInt8) (msg : Frame) :
     routerToApp id (routerProcessIncoming false .req (reqSendWire msg))
       = [{ payload := id, more := true, command := false }, { msg with more := false }] := by
-  sorry
+  simp [reqSendWire, routerProcessIncoming, routerToApp, emptyFrame, clearLastMore]
 
 /-- ROUTER → REQ (REQ strategy): the REQ application receives exactly the payload -/
 theorem router_to_req (manual : Bool) (id : Frame) (payload : List Frame) (hne : payload ≠ []) :
     reqProcessIncoming (routerSendWire .req manual (id :: payload)) = clearLastMore payload := by
-  sorry
+  have he := isEmpty_eq_false_of_ne_nil payload hne
+  simp only [routerSendWire, prepareWire, he, Bool.not_false]
+  rw [clearLastMore_cons_of_ne_nil _ _ hne]
+  simp [reqProcessIncoming, emptyFrame]
 
 /-- REQ → REP → REQ: the REP sees exactly the request; its reply reaches the REQ unchanged, with the routing
 prefix (everything up to the delimiter) restored in front of it -/
 theorem req_rep_roundtrip (msg : Frame) (reply : List Frame) (hne : reply ≠ []) :
     (repExtractPrefix (reqSendWire msg)).2 = [{ msg with more := false }]
     ∧ reqProcessIncoming (repReplyWire (repExtractPrefix (reqSendWire msg)).1 reply) = normFlags reply := by
-  sorry
+  have he := isEmpty_eq_false_of_ne_nil reply hne
+  have hx : repExtractPrefix (reqSendWire msg) = ([emptyFrame true], [{ msg with more := false }]) := by
+    simp [repExtractPrefix, reqSendWire, emptyFrame, List.findIdx?_cons]
+  rw [hx]
+  refine ⟨rfl, ?_⟩
+  simp only [repReplyWire, he, Bool.false_eq_true, if_false, List.singleton_append]
+  rw [normFlags_cons_of_ne_nil _ _ hne]
+  simp [reqProcessIncoming, emptyFrame]
 
 /-- DEALER → REP → DEALER through the delimiter convention -/
 theorem dealer_rep_roundtrip (payload reply : List Frame) (hne : payload ≠ []) (hr : reply ≠ []) :
     payloadsOf (repExtractPrefix (dealerPrepareSend false payload)).2 = payloadsOf payload
     ∧ payloadsOf (dealerProcessIncoming false
         (repReplyWire (repExtractPrefix (dealerPrepareSend false payload)).1 reply)) = payloadsOf reply := by
-  sorry
+  have he := isEmpty_eq_false_of_ne_nil payload hne
+  have her := isEmpty_eq_false_of_ne_nil reply hr
+  have hx : repExtractPrefix (dealerPrepareSend false payload) = ([emptyFrame true], normFlags payload) := by
+    simp only [dealerPrepareSend, dealerAutoEncode, he, Bool.false_eq_true, if_false]
+    rw [normFlags_cons_of_ne_nil _ _ hne]
+    simp [repExtractPrefix, emptyFrame, List.findIdx?_cons]
+  rw [hx]
+  refine ⟨map_payload_normFlags payload, ?_⟩
+  simp only [repReplyWire, her, Bool.false_eq_true, if_false, List.singleton_append]
+  rw [normFlags_cons_of_ne_nil _ _ hr]
+  simp only [dealerProcessIncoming, Bool.false_eq_true, if_false, emptyFrame, List.isEmpty_nil, Bool.not_true]
+  exact map_payload_normFlags reply
 
 /-- every wire message a ROUTER / DEALER / REQ / REP emits is well formed: MORE exactly on all but the last
 frame (for ROUTER: given well-flagged user frames) -/
 theorem wire_flags_wellformed (manual : Bool) (payload : List Frame) :
     normFlags (dealerPrepareSend manual payload) = dealerPrepareSend manual payload := by
-  sorry
+  simp only [dealerPrepareSend]
+  split
+  · exact normFlags_idem _
+  · split
+    · rfl
+    · exact normFlags_idem _
 
 end Rzmq.C11
